@@ -178,8 +178,17 @@ public:
     }
     if (const auto *SD = dyn_cast<ClassTemplateSpecializationDecl>(D)) {
       if (!isa<ClassTemplatePartialSpecializationDecl>(SD)) {
-        QualType T = Ctx.getTypeDeclType(SD);
-        return safe(T.getCanonicalType().getAsString(PP));
+        // qualified template name + canonical (converted) template arguments, so that explicit and implicit
+        // instantiations of the same specialisation get the same name
+        std::string base;
+        raw_string_ostream bos(base);
+        SD->getSpecializedTemplate()->printQualifiedName(bos, PP);
+        bos.flush();
+        std::string a;
+        raw_string_ostream aos(a);
+        printTemplateArgumentList(aos, SD->getTemplateArgs().asArray(), PP, SD->getSpecializedTemplate()->getTemplateParameters());
+        aos.flush();
+        return safe(base + a);
       }
     }
     raw_string_ostream os(s);
